@@ -1,5 +1,5 @@
 (* C06 — executable side of the correspondence check: the case type written by the Go harness
-   (harness/overlay/state/verif_c06_state_test.go, harness/overlay/types/verif_c06_types_test.go),
+   (harness/overlay/state/verif_c06_{chain,misc,helpers}_test.go),
    the property monitors evaluated on the implementation's own answers, and the comparison of
    the model with the implementation.  Depends on Model.v (and C07.Model) only. *)
 From Coq Require Import String List ZArith NArith Bool.
